@@ -124,6 +124,10 @@ func RunC15(c *Ctx) {
 		limitThemed := index%30 == 11
 		sizeThemed := index%30 == 17
 		numberThemed := index%30 == 23
+		// record-themed history: a handful of record documents (arrays of objects that repeat one key set, keys
+		// that are easy to confuse, columns whose values repeat) decoded again and again in changing order
+		recordThemed := index%30 == 3
+		recordBase := r.Uint64() % 40000
 		inbuf := make([]byte, 1<<16)
 		var prevDoc []byte
 		small := []string{"null", " null ", "{}", "[]", "[1]", `{"a":1}`, `{"a":1,"b":[true]}`, `{"a":1,"b":`, `[1,2,`, `"str"`, "12", `{"a":{"b":[]}}`, `[[],[[]]]`, "nul", ""}
@@ -144,6 +148,8 @@ func RunC15(c *Ctx) {
 			fn := r.Intn(3)
 			forced := false
 			switch {
+			case recordThemed:
+				doc, dk, forced = workload.W11Doc(c.Seed, recordBase+uint64(r.Intn(6))), "record-themed", true
 			case numberThemed:
 				// number-themed history: numbers that need the slow decimal path, overflow failures and
 				// ordinary numbers in turn (seeded change C15r8-m1: a per-reader scratch decimal that is
